@@ -237,6 +237,28 @@ theorem hoisted_take_closure_is_not_a_restore :
       MJ.Nested.Same (MJ.Nested.includeStmt 10 500 true [.missing] 0 s o).2.1 s :=
   MJ.Nested.hoisted_take_closure_loses_closure
 
+/-! ## `with_auto_escape`: the one save/restore outside `with_execution_state` and the instruction pairs -/
+
+/-- `with_auto_escape_restores`: in the model of `State::with_auto_escape` the auto-escape mode after
+the helper is the mode before it whenever the override changed it — whatever the callee does, Ok and
+Err alike — and with a callee that leaves the state alone (the formatter gets `&State`) the whole
+state is untouched on both branches of the helper. -/
+theorem with_auto_escape_restores (ae : Nat) (f : MJ.Nested.Body) (s : MJ.Nested.St) (o : MJ.Nested.Out) :
+    (s.autoEscape ≠ ae → (MJ.Nested.withAutoEscape ae f s o).2.1.autoEscape = s.autoEscape) ∧
+    ((∀ s o, (f s o).2.1 = s) → (MJ.Nested.withAutoEscape ae f s o).2.1 = s) :=
+  ⟨MJ.Nested.withAutoEscape_mode ae f s o, fun hf => MJ.Nested.withAutoEscape_restores ae f hf s o⟩
+
+example : ∃ (f : MJ.Nested.Body), (∀ s o, (f s o).2.1 = s) ∧ ∀ s o, (f s o).1 = .err :=
+  ⟨fun s o => (.err, s, ⟨o.caps + 1⟩), fun _ _ => rfl, fun _ _ => rfl⟩
+
+/-- the model tells the variants apart: with the restore guarded by `old == auto_escape` the override
+stays installed whenever it changed the mode -/
+theorem inverted_restore_guard_leaks :
+    ∃ (f : MJ.Nested.Body) (s : MJ.Nested.St) (o : MJ.Nested.Out), (∀ s o, (f s o).2.1 = s) ∧
+      (MJ.Nested.withAutoEscapeInverted 2 f s o).2.1.autoEscape ≠ s.autoEscape ∧
+      (MJ.Nested.withAutoEscape 2 f s o).2.1 = s :=
+  MJ.Nested.withAutoEscapeInverted_leaks
+
 /-! ## The code generator only produces balanced code -/
 
 open MJ.BalGen in
@@ -390,5 +412,73 @@ theorem restore_order_as_modelled :
 /-- no hook site of C05 keeps the real call in a `cfg(not(feature = "verif_hooks"))` branch: the
 line the users' build runs is the line the checks run -/
 theorem hook_sites_call_once : MJ.Gen.c05HookNotBranches = [] := by decide
+
+/-- every writer of the scoped state anywhere in the crate, classed: (a) an instruction of a
+Push/Pop pair or a primitive only such instructions and the wrappers use — checked by the
+certificate; (b) `with_execution_state`; (c) another save/restore helper — modelled in
+`MJ/Model/Nested.lean`; (d) a reset of something the construct itself owns -/
+def writerClass : List ((String × String × String) × String) := [
+  (("auto_escape", "assign", "vm/mod.rs::eval_impl"), "a"),            -- PushAutoEscape / PopAutoEscape
+  (("auto_escape", "assign", "vm/state.rs::with_auto_escape"), "c"),
+  (("auto_escape", "replace", "vm/state.rs::with_auto_escape"), "c"),
+  (("auto_escape", "assign", "vm/state.rs::with_execution_state"), "b"),
+  (("auto_escape", "replace", "vm/state.rs::with_execution_state"), "b"),
+  (("blocks", "assign", "vm/state.rs::with_execution_state"), "b"),
+  (("blocks", "replace", "vm/state.rs::with_execution_state"), "b"),
+  (("captures", "pop", "output.rs::end_capture"), "a"),                -- EndCapture (+ recursion return, super, end of stream)
+  (("captures", "push", "output.rs::begin_capture"), "a"),
+  (("closure", "assign", "vm/context.rs::next_loop_item"), "d"),       -- fresh closure for the next iteration of the loop's own frame
+  (("closure", "assign", "vm/context.rs::reset_closure"), "c"),        -- perform_include, Enclose
+  (("closure", "take", "vm/context.rs::take_closure"), "c"),
+  (("ctx", "replace", "vm/mod.rs::eval_macro"), "c"),
+  (("current_block", "assign", "vm/state.rs::with_execution_state"), "b"),
+  (("current_block", "replace", "vm/state.rs::with_execution_state"), "b"),
+  (("depth", "+=", "vm/context.rs::incr_depth"), "c"),
+  (("depth", "-=", "vm/context.rs::decr_depth"), "c"),
+  (("depth", "-=", "vm/context.rs::incr_depth"), "c"),
+  (("depth", "=", "vm/context.rs::clear"), "d"),                       -- recycling of a macro context
+  (("frames", "clear", "vm/context.rs::clear"), "d"),
+  (("frames", "pop", "vm/context.rs::pop_frame"), "a"),
+  (("frames", "pop", "vm/context.rs::push_frame"), "a"),               -- a frame that exceeds the depth limit is taken off again
+  (("frames", "push", "vm/context.rs::push_frame"), "a"),
+  (("frames", "push", "vm/context.rs::reset_with_frame"), "d"),
+  (("frames", "truncate", "vm/context.rs::restore_stack_depth"), "b"),
+  (("instructions", "assign", "vm/mod.rs::eval_impl"), "a"),           -- end of stream: switch to the parent template
+  (("instructions", "assign", "vm/state.rs::with_execution_state"), "b"),
+  (("instructions", "replace", "vm/state.rs::with_execution_state"), "b"),
+  (("loaded_templates", "assign", "vm/state.rs::with_execution_state"), "b"),
+  (("loaded_templates", "take", "vm/state.rs::with_execution_state"), "b")]
+
+open MJ.Gen in
+/-- the table of writers regenerated from the sources contains exactly the classed sites: a new
+writer of scoped state (or the disappearance of one) breaks this -/
+theorem state_writers_classified :
+    c05StateWriters.all (fun w => writerClass.any (fun c => c.1 == w)) = true ∧
+    writerClass.all (fun c => c05StateWriters.contains c.1) = true := by decide
+
+open MJ.Gen in
+/-- every save/restore helper restores after the nested run, with no `return` / early-return macro
+between the run and the restore, at the nesting depth of the run itself (`with_execution_state`:
+inside its `cfg` / mode switch) — in particular `with_auto_escape` restores unconditionally -/
+theorem helper_restores_unconditional :
+    c05HelperRestores = [
+      ("state.rs::with_auto_escape", "auto_escape", 0, false),
+      ("state.rs::with_execution_state", "frames", 1, false),
+      ("state.rs::with_execution_state", "instructions", 0, false),
+      ("state.rs::with_execution_state", "auto_escape", 0, false),
+      ("state.rs::with_execution_state", "current_block", 1, false),
+      ("state.rs::with_execution_state", "blocks", 3, false),
+      ("state.rs::with_execution_state", "loaded_templates", 3, false),
+      ("vm/mod.rs::eval_macro", "ctx", 0, false),
+      ("vm/mod.rs::perform_super", "frames", 0, false),
+      ("vm/mod.rs::perform_super", "blocks", 0, false),
+      ("vm/mod.rs::perform_include", "closure", 0, false),
+      ("vm/mod.rs::perform_include", "depth", 0, false)] := by decide
+
+open MJ.Gen in
+/-- every builtin filter / test / function that is handed the `State` (by its signature) is applied
+by the harness inside every scoped construct -/
+theorem state_builtins_covered :
+    c05StateBuiltins.all (fun n => c05HarnessBuiltins.contains n) = true := by decide
 
 end MJ.C05
